@@ -28,6 +28,7 @@ CLAIMED = {
  "C17": "One-step lemma FlagsDoNotInterfere checked by TLC at every reachable state of the kernel schedules with both flags on; trace and warning records (kind, line) predicted by the model and compared on replay; differential driver: each generated program under the four flag configurations, outputs minus trace/warning records and final state compared.",
  "C18": "Rng.tla on limb naturals; MC_Rng explores all argument-sign sequences from 17 boundary seeds with invariants InRange and Pure (against an independently coded LCG); Apalache proves the range invariant inductive over unbounded integers; every transition replayed through the hook, PRINT RND on the core and on the Web adapter; RND calls from boundary and random 64-bit seeds judged by TLC.",
  "C19": "Web.tla models the adapter (error latch asserted empty on entry, interpreter swap on NEW, get_state's panic arm) and the page script's four handlers with the timer tick as an independently enabled action; the protocol is parameterised by facts extracted from main.ts; MC_Web explores every event sequence (load, submit, break, tick) to the tier's length with invariants NoTrap / NewIsFresh; every transition is replayed on the real JsInterpreter (built natively) through a transliteration of the handlers, beside a plain core interpreter; random page sessions are judged by TLC.",
+ "C20": "Lsp.tla models the server loop (document map, diagnostics as the image of the analyzer's messages with UTF-16 columns, delta-encoded semantic tokens); MC_Lsp explores every open / change / token-request sequence to the tier's length over 8 texts including non-ASCII and astral characters before tokens, with invariant C20Holds; every transition is replayed against the real abasic-lsp process over stdio, each reply also checked for liveness, bounds computed from the bytes, ordering, legend and bag equality with the in-process analyzer; random documents through a long-lived server are judged by TLC.",
 }
 ENGINE = "tlc+vh"
 checks = []
